@@ -45,7 +45,9 @@ use dmntk_feel::{AstNode, FeelType, Name, Scope};
 use serde_json::json;
 
 // ------------------------------------------------------------------------------------------
-// signatures of the defects of the pinned tree (known_findings.json matches on them)
+// signatures of known defects (known_findings.json matches on them).  SIG_SURROGATE (F10) and
+// SIG_TWO_COMMENTS (F20) are repaired in /repo (commits 1a5ec1f, d0f16a2): their entries are
+// `fixed`, so a recurrence is reported as a violation under the same, specific signature.
 // ------------------------------------------------------------------------------------------
 
 const SIG_BETWEEN: &str = "round trip fails: `and` or `between` inside the middle operand of between";
@@ -454,7 +456,7 @@ fn text_path_quirk(ts: &[String]) -> bool {
 }
 
 /// A built-in type name followed by a word or one of the name symbols `. / - ' + *`: the lexer
-/// reads on and returns one long name (lexer.rs:550-705: the built-in type names are tried on
+/// reads on and returns one long name (lexer.rs:556-713: the built-in type names are tried on
 /// the longest candidate only).
 fn text_builtin_tail(ts: &[String]) -> bool {
   (0..ts.len()).any(|i| (ts[i] == "number" || ts[i] == "string") && i + 1 < ts.len() && (is_word(&ts[i + 1]) || ts[i + 1].chars().next().map(|c| c.is_ascii_digit()).unwrap_or(false) || [".", "/", "-", "'", "+", "*", "**", ".."].contains(&ts[i + 1].as_str())))
@@ -462,9 +464,9 @@ fn text_builtin_tail(ts: &[String]) -> bool {
 
 #[derive(Clone, Copy, PartialEq, Debug)]
 enum LayoutClass {
-  /// white space and at most one comment per gap, white space right after every keyword
+  /// white space and comments (any number per gap), white space right after every keyword
   Clean,
-  /// some gap holds two comments in a row
+  /// some gap holds two comments in a row (rejected before d0f16a2)
   DoubleComment,
   /// some keyword is directly followed by a comment
   KeywordComment,
@@ -523,7 +525,13 @@ fn render_layout(ts: &[Tk], rng: &mut Rng, class: LayoutClass) -> String {
         gap.push_str(pick_str(rng, &WS));
       }
       if k >= 4 {
-        gap.push_str(pick_str(rng, &COMMENTS));
+        // one comment, sometimes several in a row (any number may separate two tokens)
+        for _ in 0..(if k == 5 { 1 + rng.below(3) } else { 1 }) {
+          gap.push_str(pick_str(rng, &COMMENTS));
+          if rng.chance(1, 2) {
+            gap.push_str(pick_str(rng, &WS));
+          }
+        }
         if rng.chance(2, 3) {
           gap.push_str(pick_str(rng, &WS));
         }
